@@ -348,3 +348,136 @@ func CountOps(n *Node) int {
 	})
 	return c
 }
+
+// ---------------------------------------------------------------- token rendering (C03)
+
+// RenderTokens renders the expression as a token list (a QName is one token).
+func RenderTokens(n *Node, mode RenderMode) []string {
+	var out []string
+	tokens(&out, n, mode)
+	return out
+}
+
+func tokens(out *[]string, n *Node, mode RenderMode) {
+	emit := func(s ...string) { *out = append(*out, s...) }
+	sub := func(parent, c *Node, right bool) {
+		if needParen(parent, c, right, mode) {
+			emit("(")
+			tokens(out, c, mode)
+			emit(")")
+		} else {
+			tokens(out, c, mode)
+		}
+	}
+	switch n.Kind {
+	case KNum:
+		emit(n.NumText)
+	case KLit:
+		emit(string(n.Quote) + n.Lit + string(n.Quote))
+	case KParen:
+		emit("(")
+		tokens(out, n.Args[0], mode)
+		emit(")")
+	case KNeg:
+		emit("-")
+		sub(n, n.Args[0], false)
+	case KBin:
+		sub(n, n.Args[0], false)
+		emit(n.Op)
+		sub(n, n.Args[1], true)
+	case KFunc:
+		emit(n.Fn, "(")
+		for i, a := range n.Args {
+			if i > 0 {
+				emit(",")
+			}
+			tokens(out, a, mode)
+		}
+		emit(")")
+	case KPath:
+		pathTokens(out, n.Path, mode)
+	}
+}
+
+func pathTokens(out *[]string, p *Path, mode RenderMode) {
+	emit := func(s ...string) { *out = append(*out, s...) }
+	first := true
+	switch p.Root {
+	case RootAbs:
+		emit("/")
+	case RootCurrent:
+		emit("current", "(", ")")
+		first = false
+	case RootDeref:
+		emit("deref", "(")
+		pathTokens(out, p.DerefArg, mode)
+		emit(")")
+		first = false
+	}
+	for _, s := range p.Steps {
+		if !first {
+			emit("/")
+		}
+		first = false
+		switch s.Kind {
+		case SDot:
+			emit(".")
+		case SDotDot:
+			emit("..")
+		case SName:
+			if s.Prefix != "" {
+				emit(s.Prefix + ":" + s.Name)
+			} else {
+				emit(s.Name)
+			}
+		}
+		for _, pr := range s.Preds {
+			emit("[")
+			if pr.KeyPrefix != "" {
+				emit(pr.KeyPrefix + ":" + pr.Key)
+			} else {
+				emit(pr.Key)
+			}
+			emit("=")
+			tokens(out, pr.Operand, mode)
+			emit("]")
+		}
+	}
+}
+
+func nameish(c byte) bool {
+	return c >= 0x80 || c == '_' || c == '-' || c == '.' || c == ':' ||
+		(c >= '0' && c <= '9') || (c >= 'a' && c <= 'z') || (c >= 'A' && c <= 'Z')
+}
+
+// NeedsSeparator is a conservative predicate: true when removing the
+// whitespace between two adjacent tokens could merge them or change how
+// either is tokenised.
+func NeedsSeparator(a, b string) bool {
+	if a == "" || b == "" {
+		return false
+	}
+	la, fb := a[len(a)-1], b[0]
+	if la == '\'' || la == '"' || fb == '\'' || fb == '"' {
+		return false
+	}
+	if nameish(la) && nameish(fb) {
+		return true
+	}
+	// "/" "/" -> "//", "<" "=" -> "<=", "!" "=", ":" ":", "*" after name is fine
+	if (la == '/' && fb == '/') || ((la == '<' || la == '>' || la == '!') && fb == '=') {
+		return true
+	}
+	// a name directly followed by "(" would turn into a function call / node type test
+	if nameish(la) && fb == '(' {
+		return true
+	}
+	// a name directly followed by "*" or ":" could form prefix:* / a QName
+	if nameish(la) && (fb == '*' || fb == ':') {
+		return true
+	}
+	if la == '*' && nameish(fb) {
+		return true
+	}
+	return false
+}
